@@ -64,6 +64,7 @@ struct GenOpts {
   double polarityProb = 0.5;
   bool turned = true;     // allow E/W/FE/FW for cells without polarity
   bool splitRows = true;  // several segments per y
+  double splitProb = 0.25;
   bool gaps = true;       // vertical gaps between rows
   double utilLo = 0.2, utilHi = 0.9;
   int scale = 1;          // coordinate multiplier
@@ -142,12 +143,14 @@ inline Circuit genCircuit(Rng &rng, const GenOpts &o) {
     else if (orientPattern == 1) ro = CellOrientation::N;
     else if (orientPattern == 2) ro = (r % 2 == 0) ? CellOrientation::FS : CellOrientation::N;
     else ro = rowO[rng.range(0, 3)];
-    if (o.splitRows && rng.chance(0.25) && Wu >= 2 * minSegU + 4) {
+    if (o.splitRows && rng.chance(o.splitProb) && Wu >= 2 * minSegU + 4) {
       int cut1 = (int)(rng.range(minSegU, Wu - minSegU - 2) * sc);
       int cut2 = (int)std::min<long long>(W, cut1 + rng.range(0, 3) * sc);
       if (W - cut2 < minSegU * sc) cut2 = W;  // keep every segment in the domain
       rows.emplace_back(x0, x0 + cut1, y, y + H, ro);
-      if (cut2 < W) rows.emplace_back(x0 + cut2, x0 + W, y, y + H, ro);
+      // the second segment of a y level usually shares the orientation of the first, sometimes it has its own
+      CellOrientation ro2 = rng.chance(0.2) ? rowO[rng.range(0, 3)] : ro;
+      if (cut2 < W) rows.emplace_back(x0 + cut2, x0 + W, y, y + H, ro2);
     } else {
       int dx0 = rng.chance(0.2) ? (int)(rng.range(0, 3) * sc) : 0;
       int dx1 = rng.chance(0.2) ? (int)(rng.range(0, 3) * sc) : 0;
@@ -718,11 +721,11 @@ inline GenOpts makeProfile(Rng &rng, const std::string &name) {
   } else if (name == "rowhigh-any") {
     o.multiRow = false; o.polarity = false;
   } else if (name == "multirow") {
-    o.multiRowProb = 0.5; o.maxRows = 12;
+    o.multiRowProb = 0.5; o.maxRows = 12; o.splitProb = 0.5;
   } else if (name == "turned") {
     o.polarityProb = 0.1;
   } else if (name == "polarity") {
-    o.polarityProb = 0.9; o.turned = false;
+    o.polarityProb = 0.9; o.turned = false; o.splitProb = 0.5;
   } else if (name == "dense") {
     o.utilLo = 0.85; o.utilHi = 1.1; o.maxCells = 60;
   } else if (name == "obstruction") {
